@@ -33,24 +33,36 @@ RTOL, ATOL = 1e-5, 5e-6
 SCOPE = (
     "pyunicorn.funcnet.CouplingAnalysis (cross_correlation lag_mode max/all, mutual_information "
     "binning/gauss [knn: relations and bounds only], information_transfer gauss ity/mit past 1-2 "
-    "[knn: relations only], symmetrize_by_absmax), CouplingAnalysisPurePython (cross_correlation "
-    "all/max/sum, only_tri, mutual_information, shuffled_surrogate_for_cc/_mi with the global RNG "
-    "seeded) and its agreement with the compiled class, TsonisClimateNetwork / "
-    "SpearmanClimateNetwork / PartialCorrelationClimateNetwork / MutualInfoClimateNetwork "
-    "(calculate_similarity_measure(anomaly) signed, similarity_measure() = |.|, winter_only on/off) "
-    "and Surrogates.test_pearson_correlation / test_mutual_information, against float64 NumPy / "
-    "scipy.stats references.  Exhaustive: all T=3 (quick) and T=3,4 (thorough) two-column series "
-    "over a 3-letter alphabet for cross-correlation (compiled + pure), all 2x2 and a grid of 3x3 "
-    "value/lag matrices for symmetrize_by_absmax.  Seeded: T in 3..200 (thorough to 1000), N in "
-    "2..8 incl. N>T, kinds rand/ar/const/dup/anti/ties/lagcopy/sine/mixed, tau_max 0..6 (<= T-3), "
-    "bins 2..8, n_bins 2..32.  Tolerance TOL32: |lib-ref| <= 5e-6 + 1e-5|ref| (float32 results); "
-    "relations 2x TOL32; Gaussian estimates TOL32 on the information or the |r| scale.  Undefined "
-    "reference values (constant series, degenerate regressions, singular correlation matrix) are "
-    "not compared except that cross-correlation must give its documented 0.  Known defect #18 "
-    "(int8 lag) is probed in exactly one case (check cross_correlation/lag-int8-range); two further "
-    "genuine deviations have one dedicated probe each (mutual_information/binning-lagged-norm, "
-    "SpearmanClimateNetwork/ties-average-rank); all other cases keep tau_max <= 6, compare binned "
-    "MI with tau_max > 0 up to the factor (T-tau_max)/T and use tie-free anomalies for Spearman."
+    "lag_mode max/all [knn: relations only], symmetrize_by_absmax), CouplingAnalysisPurePython "
+    "(cross_correlation all/max/sum, only_tri, mutual_information all/max, "
+    "shuffled_surrogate_for_cc/_mi all/sum/max with the global RNG seeded) and its agreement with "
+    "the compiled class (cross-correlation on the common window; binned MI at lag 0 with uniform "
+    "marginals), TsonisClimateNetwork / SpearmanClimateNetwork / PartialCorrelationClimateNetwork "
+    "/ MutualInfoClimateNetwork (calculate_similarity_measure(anomaly) signed and "
+    "similarity_measure() = |.|, time_cycle 1/2 and 12 with winter_only, reference computed from "
+    "the library's anomaly()) and Surrogates.test_pearson_correlation / test_mutual_information "
+    "(off-diagonal; inputs normalised, once through Surrogates.normalize_original_data), against "
+    "float64 NumPy / scipy.stats references (specs/stats_spec.py).  Exhaustive: all 729 T=3 "
+    "(thorough: also all 6561 T=4; quick: 250 sampled) two-column series over a 3-letter alphabet "
+    "with every admissible tau_max for cross-correlation (compiled + pure); all 2x2 value/lag "
+    "matrices over 5 values x 5 lags and 300/2000 random 3x3 for symmetrize_by_absmax.  Seeded "
+    "(6 / 100 repetitions x 9 kinds rand, ar, const, dup, anti, ties, lagcopy, sine, mixed x 5-6 "
+    "shapes): T in 3..200 (thorough: to 1000 for cross-correlation and surrogate tests), N in "
+    "2..8 incl. N > T, tau_max 0..min(6, T-3), bins in {2,3,4,6,8}, n_bins in {2,3,8,32} "
+    "(climate MI: 32), knn k <= 8, each with one random per-column affine map and one column "
+    "permutation.  Tolerance TOL32: |lib-ref| <= 5e-6 + 1e-5|ref| (results are float32); "
+    "library-vs-library relations 2x TOL32 (partial correlation 4x); Gaussian MI / information "
+    "transfer TOL32 on the information scale or 5e-6 on the |r| scale.  Not compared (reference "
+    "undefined): statistics of a constant series (cross-correlation must return its documented "
+    "0), Gaussian estimates with |r| >= 1-1e-9 or a regressed series that keeps < 1e-5 of its "
+    "norm, partial correlation when the correlation matrix has condition number > 1e6 or "
+    "T <= N+2, histogram-MI pairs with a value within 5e-5 (float32 kernel) / 1e-9 (float64 "
+    "kernel) cell widths of a cell boundary, knn entries of identical series.  Known defect #18 "
+    "(int8 lag) is probed in exactly one case (check cross_correlation/lag-int8-range).  Three "
+    "further deviations have exactly one dedicated probe each: mutual_information/"
+    "binning-lagged-norm, mutual_information/gauss-perfect-correlation, SpearmanClimateNetwork/"
+    "ties-average-rank; elsewhere tau_max <= 6, binned MI with tau_max > 0 is accepted up to the "
+    "factor (T-tau_max)/T, and Spearman is compared on tie-free anomaly series only."
 )
 RULE = (
     "A case is (family, data descriptor, estimator arguments); data descriptors are explicit "
@@ -1029,6 +1041,12 @@ def fam_surr(w, acc):
     if w["surrogate"] == "shuffle":
         sur = np.stack([rng.permutation(orig[i]) for i in range(N)])
     elif w["surrogate"] == "self":
+        # the library's own pipeline: Surrogates.normalize_original_data, then the data against
+        # itself; the reference below is the Pearson matrix / histogram MI of these series
+        with quiet():
+            sobj = Surrogates(d.T.copy(), silence_level=3)
+            sobj.normalize_original_data()
+        orig = np.array(sobj.original_data, dtype=np.float64)
         sur = orig.copy()
     else:
         sur = _normalise_rows(rng.randn(N, T))
@@ -1183,7 +1201,7 @@ def build_cases(tier, seed):
         Lm = rng.randint(-127, 128, (3, 3)).tolist()
         cases.append({"family": "sym", "S": Sm, "L": Lm})
     # ---- seeded data sets
-    reps = int(os.environ.get("C10_REPS", 60 if thorough else 6))
+    reps = int(os.environ.get("C10_REPS", 100 if thorough else 6))
     for _ in range(reps):
         for kind in KINDS:
             shapes = [(3, 2), (4, 3), (5, 7), (int(rng.randint(8, 30)), int(rng.randint(2, 6))),
